@@ -78,7 +78,7 @@ func (e *Evaluator) Process(items map[string]interface{}) (ret bool, retErr erro
 	defer func() {
 		info := recover()
 		if info != nil {
-			retErr = fmt.Errorf("%q", info)
+			retErr = recoveredError(info)
 			ret = false
 		}
 	}()
@@ -106,4 +106,17 @@ func Evaluate(rule string, items map[string]interface{}) bool {
 	}
 	result, _ := ev.Process(items)
 	return result
+}
+
+// recoveredError turns the value of a recovered panic into an error. The value
+// may come from the input object (a fmt.Stringer whose String method panics,
+// possibly with the Stringer itself as the panic value), so formatting it can
+// panic again; in that case only the type of the value is reported.
+func recoveredError(info interface{}) (err error) {
+	defer func() {
+		if recover() != nil {
+			err = fmt.Errorf("panic with a value of type %T", info)
+		}
+	}()
+	return fmt.Errorf("%q", info)
 }
